@@ -88,6 +88,7 @@ type Exec struct {
 	matchedCalls  map[string]bool
 	pureFuncs     map[string]bool
 	mergingSnap   bool
+	escaped       map[*ssa.Alloc]bool
 	freshBytes    map[string]bool
 	detExt        map[string]bool
 	preludeText   string
@@ -105,6 +106,7 @@ func (x *Exec) initMaps() {
 	x.usedContracts = map[string]bool{}
 	x.matchedCalls = map[string]bool{}
 	x.pureFuncs = map[string]bool{}
+	x.escaped = map[*ssa.Alloc]bool{}
 	x.freshBytes = map[string]bool{}
 	x.detExt = map[string]bool{}
 	x.labels = map[string]*State{}
